@@ -164,6 +164,9 @@ func (x *X) Decode() *Dec {
 				if onlyViewed(t) || x.onlyCursorUpdate(t) {
 					continue
 				}
+				if binConsumer(t) != nil {
+					continue // read field by field by encoding/binary (decBinDecode)
+				}
 				lo := off
 				if t.Low != nil {
 					lo = lo.Add(x.Sym(t.Low))
@@ -564,6 +567,10 @@ func (x *X) decCall(d *Dec, t *ssa.Call, add func(Atom)) {
 		return
 	}
 	if _, isB := cc.Value.(*ssa.Builtin); isB {
+		return
+	}
+	if x.decBinDecode(t, add) {
+		x.markHandled(t)
 		return
 	}
 	// closure called once per section
@@ -1533,14 +1540,17 @@ func (d *Dec) allAtoms() []flatAtom {
 	type dkey struct {
 		in      ssa.Instruction
 		inlined bool
+		leaf    string // one call that reads several fields (encoding/binary): the field read
 	}
 	seen := map[dkey]bool{}
 	var uniq []flatAtom
 	for _, fa := range out {
 		if fa.a.At != nil && fa.a.Kind != "repeat" {
-			key := dkey{fa.a.At, fa.a.From != nil}
+			key := dkey{in: fa.a.At, inlined: fa.a.From != nil}
 			if v, ok := fa.a.Val.(ssa.Instruction); ok {
 				key.in = v
+			} else if fa.a.Val == nil && fa.a.Off != nil {
+				key.leaf = fa.a.Field + "@" + fa.x.SymString(*fa.a.Off)
 			}
 			if seen[key] {
 				continue
